@@ -46,6 +46,13 @@ func hasFiniteTime(e ast.Expr) bool {
 
 // closeCalls lists "(call, kind)" pairs of a function body in source order.
 func closeCalls14(body *ast.BlockStmt, allowLock bool) []string {
+	return closeCallsIn14(body, allowLock, nil, nil, 0)
+}
+
+// closeCallsIn14 is closeCalls14 that looks into the functions and methods of the same package the body calls (idx,
+// encl as for resolveCall14; two levels): what such a helper does is listed in place of the call, so that moving
+// part of a Close into a helper neither hides a wait nor adds an entry.  Beyond two levels the call itself is listed.
+func closeCallsIn14(body *ast.BlockStmt, allowLock bool, idx map[string]*ast.FuncDecl, encl *ast.FuncDecl, depth int) []string {
 	var out []string
 	if body == nil {
 		return out
@@ -93,6 +100,12 @@ func closeCalls14(body *ast.BlockStmt, allowLock bool) []string {
 			}
 			if _, isLit := x.Fun.(*ast.FuncLit); isLit {
 				return true // its body is inspected as part of the walk
+			}
+			if idx != nil && depth < 2 {
+				if callee := resolveCall14(idx, x, encl); callee != nil && callee != encl {
+					out = append(out, closeCallsIn14(callee.Body, allowLock, idx, callee, depth+1)...)
+					return true // the arguments are still walked
+				}
 			}
 			for _, pure := range []string{"time.", "fmt.", "strings.", "errors.", "websocket.FormatCloseMessage"} {
 				if strings.HasPrefix(name, pure) {
@@ -164,6 +177,7 @@ func init() {
 		}
 		var rows []string
 		seen := map[string]bool{}
+		sidx := pkgFuncIndex14(dir)
 		for _, e := range ents {
 			if e.IsDir() || !strings.HasSuffix(e.Name(), ".go") || strings.HasSuffix(e.Name(), "_test.go") {
 				continue
@@ -176,7 +190,7 @@ func init() {
 				}
 				r := recvName14(fd)
 				seen[r] = true
-				rows = append(rows, fmt.Sprintf("(%q, [%s])", r, strings.Join(closeCalls14(fd.Body, false), ", ")))
+				rows = append(rows, fmt.Sprintf("(%q, [%s])", r, strings.Join(closeCallsIn14(fd.Body, false, sidx, fd, 0), ", ")))
 			}
 		}
 		sort.Strings(rows)
@@ -189,13 +203,14 @@ func init() {
 
 		uf := parse("internal/client/upstream/upstream.go")
 		var ends []string
+		uidx := pkgFuncIndex14("internal/client/upstream")
 		for _, fn := range []string{"Shutdown", "discard"} {
 			fd := findFunc(uf, "Upstreams", fn)
 			if fd == nil {
 				fail("upstream.go: Upstreams.%s not found", fn)
 				continue
 			}
-			ends = append(ends, fmt.Sprintf("(%q, [%s])", "Upstreams."+fn, strings.Join(closeCalls14(fd.Body, true), ", ")))
+			ends = append(ends, fmt.Sprintf("(%q, [%s])", "Upstreams."+fn, strings.Join(closeCallsIn14(fd.Body, true, uidx, fd, 0), ", ")))
 		}
 		// the server's accept loop: the branch that ends a dead session
 		if as := findFunc(parse("internal/server/communicator.go"), "ConnectionHandler", "acceptStream"); as == nil {
@@ -222,7 +237,7 @@ func init() {
 			if branch == nil {
 				fail("communicator.go acceptStream: the `err != nil` branch that closes the session not found")
 			} else {
-				ends = append(ends, fmt.Sprintf("(%q, [%s])", "ConnectionHandler.acceptStream", strings.Join(closeCalls14(branch, false), ", ")))
+				ends = append(ends, fmt.Sprintf("(%q, [%s])", "ConnectionHandler.acceptStream", strings.Join(closeCallsIn14(branch, false, pkgFuncIndex14("internal/server"), as, 0), ", ")))
 			}
 		}
 		fmt.Fprintf(b, "/-- internal/client/upstream/upstream.go, internal/server/communicator.go: the same for the two functions that end the\n    client's session and for the branch of the server's accept loop that ends a dead session (taking the\n    Upstreams mutex is not listed) -/\ndef sessionEndCalls : List (String × List (String × String)) := [\n  %s]\n", strings.Join(ends, ",\n  "))
